@@ -89,6 +89,102 @@ class Resolver:
         for nm in target_names(target):
             self.defs.setdefault(nm, []).append(None)
 
+    # -- flow-sensitive resolution ------------------------------------------
+    def _flow(self):
+        if getattr(self, "_cfg", None) is None:
+            from .cfg import CFG
+            from .dataflow import reaching_defs
+            try:
+                self._cfg = CFG(self.func)
+                self._rdin = reaching_defs(self._cfg)
+            except Exception:
+                self._cfg = False
+                self._rdin = {}
+        return self._cfg
+
+    def reaching_value(self, name_node):
+        """the single simple definition of this name reaching this use"""
+        cfg = self._flow()
+        if not cfg:
+            return None
+        if name_node.id in self.params and name_node.id not in self.defs:
+            return None
+        if name_node.id in self.keep:
+            return None
+        cn = cfg.node_containing(name_node)
+        if cn is None:
+            # inside a comprehension / lambda of a statement: locate the stmt
+            st = name_node
+            while st is not None and not isinstance(st, ast.stmt):
+                st = getattr(st, "_parent", None)
+            cn = cfg.node_of_stmt(st) if st is not None else None
+            if cn is None:
+                return None
+        defs = {d for (v, d) in self._rdin.get(cn.id, ()) if
+                v == name_node.id}
+        if len(defs) != 1:
+            return None
+        dn = cfg.nodes[next(iter(defs))]
+        a = dn.ast
+        if dn.kind != "stmt" or not isinstance(a, (ast.Assign,
+                                                    ast.AnnAssign)):
+            return None
+        if isinstance(a, ast.AnnAssign):
+            return a.value if isinstance(a.target, ast.Name) else None
+        if len(a.targets) != 1:
+            return None
+        t = a.targets[0]
+        if isinstance(t, ast.Name) and t.id == name_node.id:
+            # a local that is mutated afterwards is not its initial value
+            if any(d is None for d in self.defs.get(name_node.id, [])):
+                if not all(d is None or d is a.value
+                           for d in self.defs.get(name_node.id, [])):
+                    pass
+                muts = [d for d in self.defs.get(name_node.id, [])
+                        if d is None]
+                if muts and not self._only_aug(name_node.id):
+                    return None
+            return a.value
+        if isinstance(t, (ast.Tuple, ast.List)) and isinstance(
+                a.value, (ast.Tuple, ast.List)) and len(t.elts) == len(
+                    a.value.elts):
+            for tt, vv in zip(t.elts, a.value.elts):
+                if isinstance(tt, ast.Name) and tt.id == name_node.id:
+                    return vv
+        return None
+
+    def _only_aug(self, name):
+        return False
+
+    def build(self, node, depth=12):
+        """resolved clone of an *original* expression node"""
+        if isinstance(node, ast.Name) and isinstance(node.ctx, ast.Load) \
+                and depth > 0 and hasattr(node, "_parent"):
+            v = self.reaching_value(node)
+            if v is not None:
+                return self.build(v, depth - 1)
+            return clone(node)
+        if isinstance(node, ast.Lambda):
+            return clone(node)
+        if isinstance(node, (ast.ListComp, ast.SetComp, ast.DictComp,
+                             ast.GeneratorExp)):
+            return clone(node)
+        if not isinstance(node, ast.AST):
+            return node
+        new = type(node)()
+        for f in node._fields:
+            if not hasattr(node, f):
+                continue
+            val = getattr(node, f)
+            if isinstance(val, list):
+                setattr(new, f, [self.build(x, depth) if isinstance(
+                    x, ast.AST) else x for x in val])
+            elif isinstance(val, ast.AST):
+                setattr(new, f, self.build(val, depth))
+            else:
+                setattr(new, f, val)
+        return new
+
     def single(self, name):
         d = self.defs.get(name)
         if name in self.params or name in self.keep:
@@ -99,6 +195,8 @@ class Resolver:
 
     def resolve(self, expr, depth=12):
         """A deep copy of expr with single-assignment locals inlined."""
+        if hasattr(expr, "_parent") and self._flow():
+            return self.build(expr, depth)
         res = self
 
         class T(ast.NodeTransformer):
@@ -118,6 +216,8 @@ class Resolver:
         return T(depth).visit(clone(expr))
 
     def text(self, expr) -> str:
+        if hasattr(expr, "_parent") and self._flow():
+            return canon_text(self.build(expr))
         return canon_text(self.resolve(expr))
 
 
